@@ -15,13 +15,16 @@ from ..refmodels import P1, P2, P3, P4
 ID = "C06"
 LEVEL = "model_checking"
 ASSUMPTIONS = [
-    "fields: in-range EO integers, fixed strings of width 2, a trailing (encoded) string only as the last field of a chunk",
+    "fields: in-range EO integers, fixed strings of width 2 and 0, padded strings that exactly fill width 2, a trailing (encoded) string only as the last field of a chunk",
     "values returned by surplus reads after a PARTIAL prefix are not judged (the statement fixes only what later chunks see)",
     "depth-bounded: <= 3 chunks, <= 2 fields per chunk, <= 2 surplus reads",
 ]
 
 FIXED = [("byte", 254), ("char", 0), ("char", 252), ("short", 253), ("short", P2 - 1), ("three", P3 - 1), ("int", 0), ("int", P4 - 1),
-         ("fstr", "ab"), ("fstr", "aÿ"), ("fstr", "ÿÿ")]
+         ("fstr", "ab"), ("fstr", "aÿ"), ("fstr", "ÿÿ"),
+         # a zero-width fixed field, and padded fields that exactly fill their width (the only padded form a chunk can hold:
+         # padding bytes are break bytes)
+         ("fstr0", ""), ("pfit", "aÿ"), ("pfit", "ÿÿ")]
 TRAIL = [("str", ""), ("str", "a"), ("str", "ÿ"), ("str", "ÿes"), ("str", "aÿ"), ("str", "Ā"),
          ("estr", ""), ("estr", "a"), ("estr", "ÿ"), ("estr", "ÿa")]
 SURPLUS = ("get_char", "get_int", "get_string", "get_fixed_string2", "get_short", "get_encoded_string", "get_byte", "get_bytes2", "get_three")
@@ -63,6 +66,10 @@ def write_chunks(chunks):
                 getattr(w, "add_" + kind)(v)
             elif kind == "fstr":
                 w.add_fixed_string(v, 2)
+            elif kind == "fstr0":
+                w.add_fixed_string(v, 0)
+            elif kind == "pfit":
+                w.add_fixed_string(v, 2, True)
             elif kind == "str":
                 w.add_string(v)
             elif kind == "estr":
@@ -75,6 +82,10 @@ def _read_field(r, kind):
         return getattr(r, "get_" + kind)()
     if kind == "fstr":
         return r.get_fixed_string(2)
+    if kind == "fstr0":
+        return r.get_fixed_string(0)
+    if kind == "pfit":
+        return r.get_fixed_string(2, True)
     if kind == "str":
         return r.get_string()
     return r.get_encoded_string()
@@ -98,6 +109,8 @@ def _foreign_unsanitised_writer(chunks):
             try:
                 if kind == "fstr":
                     w.add_fixed_string(v, 2)
+                elif kind == "pfit":
+                    w.add_fixed_string(v, 2, True)
                 elif kind == "str":
                     w.add_string(v)
                 elif kind == "estr":
